@@ -117,6 +117,26 @@ int main(int argc, char** argv)
     slow = quill::Frontend::create_or_get_logger("slow", ss, quill::PatternFormatterOptions{"%(message)"}, clk);
   }
 
+  // --prealloc: the victim (main thread) registers its thread context before any other thread does
+  if (a["prealloc"] == "1") quill::Frontend::preallocate();
+  // --second_fault_ms N: another thread that has logged receives the same signal N ms after the victim raised it
+  int const second_fault_ms = atoi(a["second_fault_ms"].c_str());
+  std::atomic<bool> victim_raising{false};
+  std::thread second_faulter;
+  if (action == "signal" && second_fault_ms > 0)
+  {
+    second_faulter = std::thread([&]
+                                 {
+                                   quill::Logger* lg = make_file_logger("faulter2", g_dir + "/faulter2.log", clk);
+                                   LOG_INFO(lg, "F2|0");
+                                   while (!victim_raising.load()) usleep(200);
+                                   usleep(static_cast<useconds_t>(second_fault_ms) * 1000);
+                                   raise(sig);
+                                   pause();
+                                 });
+    usleep(2000);
+  }
+
   std::mutex mu;
   std::condition_variable cv;
   bool release_parked = false;
@@ -216,6 +236,7 @@ int main(int argc, char** argv)
     }
     else if (action == "signal")
     {
+      victim_raising.store(true);
       raise(sig);
       // SIGINT/SIGTERM: the handler calls std::exit; fatal ones never return here
       pr.rec("after-raise", K);
